@@ -3441,7 +3441,7 @@ static size_t ZSTD_copyBlockSequences(SeqCollector* seqCollector, const seqStore
         /* Update repcode history for the sequence */
         ZSTD_updateRep(repcodes.rep,
                        inSeqs[i].offBase,
-                       inSeqs[i].litLength == 0);
+                       outSeqs[i].litLength == 0);
 
         nbOutLiterals += outSeqs[i].litLength;
     }
